@@ -18,6 +18,9 @@ EXPLANATION = (
     "backwards and replace each arc by slice assignment (which re-validates every connection), with the slice count from "
     "|sweep| / (full turn x error). Not decided: the 1e-3 / 1e-2 distance bounds themselves (numeric)."
 )
+TECHNIQUE = (
+    "static analysis (no execution): loop-carried continuity and end pinning; control-point formulas as exact canonical forms over opaque trig atoms; structural rules for path-level replacement"
+)
 ASSUMPTIONS = [
     "The cubic alpha of L. Maisonobe, 'Drawing an elliptical arc using polylines, quadratic or cubic Bezier curves' (2003) is the reference for cubics.",
     "For quadratics only the geometric form of the control point is decided; the particular slice-only factor is an accuracy choice (numeric clause).",
